@@ -204,7 +204,7 @@ def names_by_id(rec, names):
     return names  # name id i -> names[i-1]
 
 
-def check_c01(rec, names, Model, symbols, seed, tier):
+def check_c01(rec, names, Model, symbols, seed, tier, light=False):
     all_names = [names[i - 1] for i in rec['modelnames']]
     named = uses_named(rec)
     L = rec['lags'] + rec['leads'] + 2 + (1 if named else 0)
@@ -212,7 +212,9 @@ def check_c01(rec, names, Model, symbols, seed, tier):
     span = make_span(L, named)
     n_exec = 0
     for p in range(rec['lags'] + 1, L - rec['leads'] + 1):
-        for which in (0, 1, 2):
+        for which in ((0,) if light else (0, 1, 2)):
+            if light and p != rec['lags'] + 1:
+                continue
             table = data_table(all_names, L, which, seed)
             t = p - 1 if which != 1 else p - 1 - L
             try:
@@ -303,7 +305,7 @@ def check_equation_text(equation, stmt, names):
         raise Mis('c01-normalised-lhs', got=lhs.strip(), want=want_lhs)
 
 
-def check_c03(rec, names, symbols, Model):
+def check_c03(rec, names, symbols, Model, light=False):
     got = sym_sig(symbols)
     want = expected_sig(rec, names)
     if got != want:
@@ -317,14 +319,17 @@ def check_c03(rec, names, symbols, Model):
     if (Model.LAGS, Model.LEADS) != (rec['lags'], rec['leads']):
         raise Mis('c03-LAGS-LEADS', got=(Model.LAGS, Model.LEADS), want=(rec['lags'], rec['leads']))
     n = 1
+    if light:
+        return n
     for row in rec['opts']:
         o = row['opt']
         kw = dict(lags=None if o['lags'] == -1 else o['lags'], leads=None if o['leads'] == -1 else o['leads'],
                   min_lags=o['minlags'], min_leads=o['minleads'])
-        M2 = fsic.build_model(symbols, **kw)
-        n += 1
-        if (M2.LAGS, M2.LEADS) != (row['lags'], row['leads']):
-            raise Mis('c03-lags-leads-options', options=kw, got=(M2.LAGS, M2.LEADS), want=(row['lags'], row['leads']))
+        for hints in (True, False):
+            M2 = fsic.build_model(symbols, with_type_hints=hints, **kw)
+            n += 1
+            if (M2.LAGS, M2.LEADS) != (row['lags'], row['leads']):
+                raise Mis('c03-lags-leads-options', options=kw, type_hints=hints, got=(M2.LAGS, M2.LEADS), want=(row['lags'], row['leads']))
     # default solution range = DefaultRange(L) of the specification (checked there to be the feasible set)
     for L in range(rec['lags'] + rec['leads'] + 1, rec['lags'] + rec['leads'] + 4):
         m = Model(range(50, 50 + L))
@@ -627,9 +632,12 @@ def process(rec, payload, out):
     did = 0
     if payload.get('check_renderer', True):
         check_renderer(rec)
-    for nm_name in payload['namemaps']:
+    renderings = [(nm, 'canon') for nm in payload['namemaps']]
+    if {'c01', 'c03'} & set(checks):
+        renderings += [(payload['namemaps'][0], lay) for lay in payload.get('semantic_layouts', [])]
+    for nm_name, layout in renderings:
         names = R.NAME_MAPS[nm_name]
-        script = R.render_program(rec['stmts'], names, 'canon')
+        script = R.render_program(rec['stmts'], names, layout)
         coll = collision(rec, names)
         try:
             symbols = parse(script)
@@ -653,13 +661,15 @@ def process(rec, payload, out):
                 continue
             Model = fsic.build_model(symbols)
             if 'c03' in checks:
-                did += check_c03(rec, names, symbols, Model)
+                did += check_c03(rec, names, symbols, Model, light=(layout != 'canon'))
             if 'c01' in checks:
-                did += check_c01(rec, names, Model, symbols, seed, payload.get('tier'))
+                did += check_c01(rec, names, Model, symbols, seed, payload.get('tier'), light=(layout != 'canon'))
             if 'c04' in checks:
                 did += check_c04(rec, names, Model, seed)
             if 'c20' in checks:
                 did += check_c20(rec, names, symbols, Model, seed)
+            if layout != 'canon':
+                continue
             if 'c14' in checks:
                 did += check_c14(rec, names, symbols, payload['layouts'], seed)
             if 'c15' in checks:
